@@ -34,7 +34,7 @@ def VALIDCELL(o, g, S, r):
 
 def SEGN(fq, g):
     """Stored segment number: segment counted from the face's first quintant."""
-    return (g - fq) % 5
+    return g - fq if g >= fq else g - fq + 5      # = (g - fq) mod 5 for 0 <= g, fq < 5
 
 
 def ENC(o, fq, g, S, r):
@@ -95,3 +95,106 @@ def NCHILD(a, b):
     if a == 0:
         return 5 * (1 << (2 * (b - 1)))
     return 1 << (2 * (b - a))
+
+
+# ---------------------------------------------------------------------------------------------
+# hierarchy (C06): the k-th element of cell_to_children(c, b) in list order, and parents.
+# `fq_of` is the table face -> first quintant (ORIGINS[face].first_quintant), passed as a list.
+
+def SH4(rc, b):
+    """log2 of the number of positions per (face, segment) block among the level-b descendants of a level-rc cell."""
+    base = rc if rc > 1 else 1
+    return 0 if b <= base else 2 * (b - base)
+
+
+def N4(rc, b):
+    return 1 << SH4(rc, b)
+
+
+def CHILDK(o, fq, g, S, rc, b, k, fq_of):
+    """k-th descendant at level b (b > rc) of the cell (o, g, S, rc); fq is o's first quintant."""
+    sh = SH4(rc, b)
+    low = (1 << sh) - 1
+    if rc >= 1:
+        return ENC(o, fq, g, (S << sh) + k, b)
+    if rc == 0:
+        if b == 0:
+            return ENC(o, fq, 0, 0, 0)
+        return ENC(o, fq, k >> sh, k & low, b)
+    # world cell
+    if b == 0:
+        return ENC(k, 0, 0, 0, 0)
+    fs = k >> sh                    # 5*face + segment
+    face = fs // 5
+    return ENC(face, fq_of[face], fs % 5, k & low, b)
+
+
+def STRIDE(b):
+    """Numeric distance between consecutive ids of level b that share face and segment."""
+    return 1 << 58 if b < 2 else 1 << (2 * (30 - b))
+
+
+def PARENT_ID(o, fq, g, S, r, a):
+    """Id of the level-a ancestor (-1 <= a <= r) of the cell (o, g, S, r)."""
+    if a == -1:
+        return 0
+    if a == r:
+        return ENC(o, fq, g, S, r)
+    if a >= 2:
+        return ENC(o, fq, g, S >> (2 * (r - a)), a)
+    return ENC(o, fq, g, 0, a)
+
+
+def INDEX_IN_CHILDREN(rc, b, face, g, dS, cS):
+    """List position of the level-b cell (face, g, dS) among the level-b descendants of a level-rc cell
+    with position cS (b > rc); the cell is a descendant iff the result is in [0, NCHILD(rc, b))."""
+    n4 = N4(rc, b)
+    if rc >= 1:
+        return dS - cS * n4
+    if rc == 0:
+        return g * n4 + dS
+    if b == 0:
+        return face
+    return face * 5 * n4 + g * n4 + dS
+
+
+# ---------------------------------------------------------------------------------------------
+# sibling groups and coverage (C08 / C09)
+
+def NSIB(r):
+    """Number of cells that share a parent at level r (r >= 0)."""
+    return 12 if r == 0 else 5 if r == 1 else 4
+
+
+def FIRSTSPEC(o, fq, g, S, r):
+    """The cell is the first of its sibling group in id order."""
+    if r == 0:
+        return o == 0
+    if r == 1:
+        return SEGN(fq, g) == 0
+    return S % 4 == 0
+
+
+def IS_ANCESTOR(co, cfq, cg, cS, cr, xo, xfq, xg, xS, xr):
+    """Cell c = (co, cg, cS, cr) is an ancestor of (or equal to) cell x; the world cell is everybody's ancestor."""
+    if cr > xr:
+        return False
+    if cr == -1:
+        return True
+    if co != xo:
+        return False
+    if cr == 0:
+        return True
+    if cg != xg:
+        return False
+    if cr == 1:
+        return True
+    return (xS >> (2 * (xr - cr))) == cS
+
+
+def HKEY(x):
+    """Hierarchical sort key: a level-0 id carries the face in its top 6 bits where every finer id carries
+    5*face+segment; moving the face to 5*face places a face cell directly before its own descendants."""
+    if HASRES(x, 0):
+        return ((TOP6(x) * 5) << TOPSHIFT) | (x & LOW58)
+    return x
